@@ -8,7 +8,8 @@ from .payload import Interner, version_clear
 TEXTS = ["", "0", "1", "43", "57", "100", "101", "-1", "3.5", "abc", "\xfcn\xef", "\U0001f600", "a b", " lead",
          "x" * 50, "M", "I", "Off", "HeatOn", "Auto", "Max", "ff0000", "ff0000ff", "55.7,13.2,12", "1e1",
          "٥٠", "+5", "1_0", "0.5", "-0.5", "99.9", "12345678901234567890", "CoolOn", "Normal", "zz",
-         "light", "{\"k\": 1}", "\\", "'q'", "tab\there", "é́", "254", "255", "7"]
+         "light", "{\"k\": 1}", "\\", "'q'", "tab\there", "é́", "254", "255", "7",
+         "caf\udce9"]      # (a lone surrogate: what surrogateescape decoding of a stray byte leaves in a str)
 VERSIONS_TXT = ["1.4", "1.5", "2.0", "2.1", "2.2", "2.2.0", "2.0.0", "2.1.1", "1.3", "0.9", "abc", "", "2.3",
                 "1.10", "1.4.1", "3.0", "1.5.0", "nope"]
 SUGGEST = {2: ["0", "1"], 15: ["0", "1"], 16: ["0", "1"], 36: ["0", "1"], 3: ["0", "50", "100"],
